@@ -11,11 +11,33 @@
  *                                               separated singular values)
  *   eig   EVectEval on symmetric input        : A v = lambda v per returned pair, spectrum = Jacobi oracle
  *   svd   SVDlapack, every shape 1..12 x 1..12: s >= 0 descending = Jacobi oracle, U S V^T = A, orthonormal factors, economy shapes
+ *   qr    QRDecomposition, square and tall      : Q (rows x rows) orthogonal, R (rows x cols) upper triangular, Q R = A (full column rank,
+ *                                               kappa <= 1e6; Householder reflections are backward stable: no kappa in the tolerance)
+ *   svde  SVD (eigen-decomposition of the normal matrices), every shape: conformable factors, s >= 0 = Jacobi oracle (as a multiset),
+ *                                               U S V^T = A, orthonormal factors when the rank is full.  The routine zeroes eigenvalues of A A^T
+ *                                               below 1e-6 (singular values below 1e-3): inputs have every non-zero singular value >= 0.05
+ *                                               (2500 x the cut-off on the eigenvalue) and kappa <= 1e3 (kappa^2 <= 1e6, amplification kappa^2, times
+ *                                               1/(100 relative gap) <= 1e4 for the vector clauses when neighbouring singular values are closer than 1e-2)
+ *   psvd  MatrixPseudoinversion (SVD based)     : M X = I and X M = I on square inputs, four Penrose conditions, = QR-oracle pseudo-inverse
+ *                                               (full column rank, same singular value domain as svde)
  * Families: prescribed singular values, permutation, zero leading entries / zero leading minors, triangular, SPD, diagonal
  * (+ rank deficient / zero / clustered spectra where the clause is stated for every matrix).
  * All tolerances are C * eps * size * amplification(kappa) * data scale; the maxima of the normalised deviations are
  * reported (max_*_units = deviation / (eps * size * amplification * scale)). */
+#define ssignal libc_ssignal   /* <signal.h> (pulled in by <sys/wait.h>) declares a function named like the library's typedef */
+#include <sys/wait.h>
+#undef ssignal
+#include <errno.h>
+#include <signal.h>
+#include <setjmp.h>
+#include <unistd.h>
 #include "drv_util.h"
+#if defined(__SANITIZE_ADDRESS__)
+#include <sanitizer/asan_interface.h>
+#define HAVE_ASAN 1
+#else
+#define HAVE_ASAN 0
+#endif
 
 #define EPS 2.220446049250313e-16
 
@@ -31,9 +53,15 @@
 #define C_EIG_VAL   400.0    /* |lambda - lambda*|              in units of n eps |A|_F            */
 #define C_SVD      2000.0    /* |U S V^T - A|, |s - s*|, |U^T U - I| in units of max(m,n) eps smax */
 
-enum { G_INV, G_DET, G_LSE, G_OLS, G_PINV, G_EIG, G_SVD, NGROUP };
-static const char *GNAME[NGROUP] = { "inv", "det", "lse", "ols", "pinv", "eig", "svd" };
-static const int GWEIGHT[NGROUP] = { 24, 14, 18, 10, 10, 10, 14 };
+#define C_QR       2000.0    /* |Q R - A|, |R below the diagonal| in units of rows eps |A|_F; |Q^T Q - I| in units of rows eps */
+#define C_SVDE     2000.0    /* SVD: |s - s*| in units of kappa^2 max(m,n) eps smax; |U S V^T - A| and |U^T U - I| in units of kappa^2 gap_amp max(m,n) eps (smax) */
+#define C_PSVD     5000.0    /* MatrixPseudoinversion: residuals in units of kappa^2 gap_amp n eps (the factors come from the normal matrices) */
+#define SVDE_SMIN    0.05    /* smallest non-zero singular value fed to SVD / MatrixPseudoinversion (documented cut-off: 1e-3) */
+#define SVDE_KMAX    1e3
+
+enum { G_INV, G_DET, G_LSE, G_OLS, G_PINV, G_EIG, G_SVD, G_QR, G_SVDE, G_PSVD, NGROUP };
+static const char *GNAME[NGROUP] = { "inv", "det", "lse", "ols", "pinv", "eig", "svd", "qr", "svde", "psvd" };
+static const int GWEIGHT[NGROUP] = { 20, 12, 15, 9, 9, 9, 10, 6, 5, 5 };
 
 enum { F_SVALS, F_PERM, F_ZEROLEAD, F_TRI, F_SPD, F_DIAG, NFAM };
 static const char *FNAME[NFAM] = { "svals", "perm", "zerolead", "tri", "spd", "diag" };
@@ -333,6 +361,7 @@ static void group_inv(vh_ctx *c)
   if (!matrix_bitequal(mx, before)) vh_fail(c, "MatrixLUInversion|input-modified", "input matrix changed");
   check_inverse(c, "MatrixInversion", A, Xo, X1, kappa, pt, (double)kappa);
   check_inverse(c, "MatrixLUInversion", A, Xo, X2, kappa, pt, 1.0);
+  vh_hist("inv_family", fam); vh_hist("inv_size", (long)n);
   vh_obs("inverses_judged", 2); if (need) vh_obs("inverse_cases_requiring_row_exchange", 1);
   DelMatrix(&X1); DelMatrix(&X2);
 out:
@@ -376,7 +405,7 @@ static void group_det(vh_ctx *c)
   if (!(fabs(dab - da * db) <= C_DET * tol))
     vh_fail(c, "MatrixDeterminant|multiplicative", "det(AB) = %.17g but det(A)det(B) = %.17g * %.17g = %.17g (n=%zu, perm(|A||B|) = %.3Lg)", dab, da, db, da * db, n, pab);
   vh_obs("determinants_judged", 3);
-  vh_hist("det_size", (long)n);
+  vh_hist("det_size", (long)n); vh_hist("det_family", fam);
   DelMatrix(&ma); DelMatrix(&mb); DelMatrix(&mab); DelMatrix(&before);
   ldm_free(A); ldm_free(B); ldm_free(AB); ldm_free(absA); ldm_free(absB); ldm_free(absAB);
 }
@@ -464,10 +493,21 @@ out:
 static ldm *gen_tall(vh_ctx *c, size_t m, size_t n, double smax_lo, double smax_hi, double kmax, char *tag, size_t tagsz)
 {
   ld sv[16];
-  int v = (int)vh_int(c, 0, 5);
+  int v = (int)vh_int(c, 0, 7);
   ldm *A;
   size_t i, j;
-  if (v == 4 && m >= n) {                          /* polynomial design 1, t, t^2 ... (the use OLS documents) */
+  if (v >= 6) {                                    /* structured square family of the quantifier (permutation, zero leading entries / minors,
+                                                      triangular, SPD, diagonal) as the design itself (m == n) or as its top block (m > n) */
+    char t2[24];
+    int fam = (int)vh_int(c, F_PERM, NFAM - 1);
+    ldm *B = gen_square(c, n, fam, kmax, t2, sizeof t2);
+    double s = vh_range(c, 0.2, 0.8);
+    A = ldm_new(m, n);
+    for (i = 0; i < m; i++) for (j = 0; j < n; j++) LM(A, i, j) = i < n ? LM(B, i, j) : s * vh_gauss(c);
+    ldm_free(B);
+    snprintf(tag, tagsz, "%s-%s", m == n ? "sq" : "stack", t2);
+    vh_hist("tall_design_structured_family", fam);
+  } else if (v == 4 && m >= n) {                          /* polynomial design 1, t, t^2 ... (the use OLS documents) */
     A = ldm_new(m, n);
     for (i = 0; i < m; i++) { ld t = vh_range(c, -1.0, 1.0), p = 1; for (j = 0; j < n; j++) { LM(A, i, j) = p; p *= t; } }
     snprintf(tag, tagsz, "poly");
@@ -520,7 +560,7 @@ static void group_ols(vh_ctx *c)
   tol = (double)(kappa * kappa) * (double)n * EPS * (double)(bs + ynorm / sv[0]);
   vh_max("max_OLS_vs_oracle_units", fwd / tol);
   if (!(fwd <= C_OLS * tol)) vh_fail(c, "OrdinaryLeastSquares|coefficients-vs-oracle", "max|beta - oracle| = %.3g > %.3g (rows=%zu cols=%zu kappa=%.3Lg)", fwd, C_OLS * tol, m, n, kappa);
-  vh_obs("ols_judged", 1);
+  vh_obs("ols_judged", 1); if (!strncmp(tag, "sq-", 3) || !strncmp(tag, "stack-", 6)) vh_obs("ols_structured_family_designs_judged", 1);
   DelDVector(&coef);
 out:
   DelDVector(&vy); DelMatrix(&mx); DelMatrix(&before); ldm_free(A); ldm_free(y); ldm_free(bo); free(sv);
@@ -574,7 +614,7 @@ static void group_pinv(vh_ctx *c)
   PINV_FAIL(p3 <= C_PINV * tol, "penrose-3-AG-symmetric", "max|AG - (AG)^T| = %.3g > %.3g (%zux%zu kappa=%.3Lg)", p3, C_PINV * tol, m, n, kappa)
   PINV_FAIL(p4 <= C_PINV * tol, "penrose-4-GA-symmetric", "max|GA - (GA)^T| = %.3g > %.3g (%zux%zu kappa=%.3Lg)", p4, C_PINV * tol, m, n, kappa)
   PINV_FAIL(fwd <= C_PINV * tol, "vs-oracle", "max|G - oracle|/max|oracle| = %.3g > %.3g (%zux%zu kappa=%.3Lg min_rel_gap=%.3g)", fwd, C_PINV * tol, m, n, kappa, gap)
-  vh_obs("pinv_judged", 1);
+  vh_obs("pinv_judged", 1); if (!strncmp(tag, "sq-", 3) || !strncmp(tag, "stack-", 6)) vh_obs("pinv_structured_family_designs_judged", 1);
   ldm_free(AG); ldm_free(GA); ldm_free(AGA); ldm_free(GAG);
   DelMatrix(&inv);
 out:
@@ -585,7 +625,7 @@ out:
 static void group_eig(vh_ctx *c)
 {
   size_t n = (size_t)vh_int(c, 1, 12), i, j, t;
-  int v = (int)vh_int(c, 0, 7);
+  int v = (int)vh_int(c, 0, 10);
   const char *tag;
   ldm *A = ldm_new(n, n), *V = ldm_new(n, n);
   ld *ev = calloc(n + 1, sizeof(ld)), *lam = calloc(n + 1, sizeof(ld)), fro;
@@ -621,10 +661,27 @@ static void group_eig(vh_ctx *c)
   case 6:                                          /* symmetric tridiagonal */
     for (i = 0; i < n; i++) { LM(A, i, i) = vh_range(c, -2.0, 2.0); if (i + 1 < n) { ld s = vh_range(c, -1.0, 1.0); LM(A, i, i + 1) = s; LM(A, i + 1, i) = s; } }
     tag = "tridiagonal"; break;
-  default:                                         /* small integers: exact multiple eigenvalues are common */
+  case 7:                                          /* small integers: exact multiple eigenvalues are common */
     for (i = 0; i < n; i++) for (j = i; j < n; j++) { ld s = (ld)vh_int(c, -1, 1); LM(A, i, j) = s; LM(A, j, i) = s; }
     tag = "integer"; break;
+  case 8: {                                        /* zero leading block [[0, B], [B^T, D]]: every leading minor up to r vanishes */
+    size_t r = n > 1 ? (size_t)vh_int(c, 1, (long)(n / 2)) : 1;
+    for (i = 0; i < n; i++) for (j = i; j < n; j++) { ld s = (i < r && j < r) ? 0 : vh_gauss(c); LM(A, i, j) = s; LM(A, j, i) = s; }
+    tag = "zeroblock"; break; }
+  case 9:                                          /* hollow: zero diagonal */
+    for (i = 0; i < n; i++) for (j = i + 1; j < n; j++) { ld s = vh_range(c, -2.0, 2.0); LM(A, i, j) = s; LM(A, j, i) = s; }
+    tag = "hollow"; break;
+  default: {                                       /* signed / scaled symmetric permutation: pairs (p_i p_j) carry +-s, fixed points +-s */
+    size_t *p = calloc(n + 1, sizeof *p);
+    vh_perm(c, p, n);
+    for (i = 0; i + 1 < n; i += 2) {
+      ld s = (vh_coin(c, 0.5) ? 1 : -1) * (vh_coin(c, 0.5) ? 1.0 : vh_range(c, 0.5, 2.0));
+      if (vh_coin(c, 0.7)) { LM(A, p[i], p[i + 1]) = s; LM(A, p[i + 1], p[i]) = s; } else { LM(A, p[i], p[i]) = s; LM(A, p[i + 1], p[i + 1]) = -s; }
+    }
+    if (n & 1) LM(A, p[n - 1], p[n - 1]) = vh_coin(c, 0.5) ? 1 : -1;
+    free(p); tag = "signedperm"; break; }
   }
+  vh_hist("eig_family", v);
   round_to_double(A);
   for (i = 0; i < n; i++) for (j = 0; j < i; j++) LM(A, i, j) = LM(A, j, i);
   mx = matrix_of_ldm(A); before = matrix_dup(mx);
@@ -757,6 +814,387 @@ out:
   DelMatrix(&u); DelMatrix(&s); DelMatrix(&vt); DelMatrix(&mx); DelMatrix(&before); ldm_free(A); free(svo);
 }
 
+/* ------------------------------------------------------------------ containment of calls that may not return */
+/* QRDecomposition, SVD and MatrixPseudoinversion have never been run by this harness and end in abort() (shape tests of
+   MatrixInversion / MatrixDotProduct) or in a heap overrun on whole input classes (single-row, non-square).  The runner stops a
+   shard after 40 dead children, so
+   - every call of the three routines runs with a SIGABRT handler that returns control to the driver when the library itself
+     calls abort() (not when a sanitizer report is in progress: that death is left to the runner), and
+   - the one class on which SVD overruns the heap (more columns than rows) is first tried in a forked copy of this process
+     (~30 ms under ASan, ~1 % of the cases); when the copy dies the case is judged and the call is not repeated here.  The
+     sanitizer report of the copy lands in the worker's log and is keyed by vcheck as well.
+   Both verdicts carry the key <Function>|routine-dies|<input class>. */
+typedef struct { int which; matrix *a, *o1, *o2, *o3; } call_t;
+static void do_call(const call_t *k)
+{
+  if (k->which == 0) QRDecomposition(k->a, k->o1, k->o2);
+  else if (k->which == 1) SVD(k->a, k->o1, k->o2, k->o3);
+  else MatrixPseudoinversion(k->a, k->o1);
+}
+static sigjmp_buf g_abort_jmp;
+static volatile sig_atomic_t g_abort_armed;
+static void on_abort(int sig)
+{
+  (void)sig;
+#if HAVE_ASAN
+  if (__asan_report_present()) return;             /* a sanitizer is dying: let it */
+#endif
+  if (g_abort_armed) { g_abort_armed = 0; siglongjmp(g_abort_jmp, 1); }
+}
+/* 0 = returned, 1 = ended in abort() */
+static int call_guarded(const call_t *k)
+{
+  struct sigaction sa, old;
+  int aborted = 0;
+  memset(&sa, 0, sizeof sa);
+  sa.sa_handler = on_abort; sigemptyset(&sa.sa_mask);
+  sigaction(SIGABRT, &sa, &old);
+  if (sigsetjmp(g_abort_jmp, 1) == 0) { g_abort_armed = 1; do_call(k); } else aborted = 1;
+  g_abort_armed = 0;
+  sigaction(SIGABRT, &old, NULL);
+  fflush(stdout);
+  return aborted;
+}
+/* 0 = returned; otherwise the wait status of the dead copy */
+static int call_dies_in_copy(const call_t *k)
+{
+  pid_t pid; int st = 0;
+  fflush(NULL);
+  pid = fork();
+  if (pid < 0) return 0;
+  if (pid == 0) { alarm(30); do_call(k); _exit(0); }   /* nobody watches the copy: a call that never returns is killed by SIGALRM */
+  while (waitpid(pid, &st, 0) < 0 && errno == EINTR) { }
+  vh_obs("calls_tried_in_a_forked_copy_first", 1);
+  return (WIFEXITED(st) && WEXITSTATUS(st) == 0) ? 0 : (st ? st : -1);
+}
+static void fail_dies(vh_ctx *c, const char *fn, const char *cls, int st, size_t m, size_t n)
+{
+  char key[128];
+  snprintf(key, sizeof key, "%s|routine-dies|%s", fn, cls);
+  if (st == 0) vh_fail(c, key, "the call on a %zux%zu input did not return: it ended in abort() (a shape test inside the library: see its message on stdout)", m, n);
+  else if (WIFSIGNALED(st)) vh_fail(c, key, "the call on a %zux%zu input did not return: killed by signal %d (sanitizer report or abort(), see the worker log)", m, n, WTERMSIG(st));
+  else vh_fail(c, key, "the call on a %zux%zu input did not return: exit status %d", m, n, WIFEXITED(st) ? WEXITSTATUS(st) : -1);
+}
+
+/* Eigenvectors of the normal matrix computed by a general (non-symmetric) eigen-solver lose orthogonality in proportion to
+   1 / (relative gap of neighbouring singular values): the documented algorithm implies that extra amplification for close
+   values (relative gap 1e-6 .. 1e-2).  Below 1e-6 the values count as repeated: any orthonormal basis of the eigenspace is a
+   valid answer and the factor stays at its 1e-6 value. */
+static double gap_amp(double gap) { return gap < 1e-6 ? 1e4 : gap < 1e-2 ? 1.0 / (100.0 * gap) : 1.0; }
+
+static const char *gap_tag(const ld *sv, size_t k, double *gapout)
+{
+  double gap = 1; size_t i;
+  for (i = 0; i + 1 < k; i++) if (sv[i] > 0 && (double)((sv[i] - sv[i + 1]) / sv[0]) < gap) gap = (double)((sv[i] - sv[i + 1]) / sv[0]);
+  if (gapout) *gapout = gap;
+  return gap < 1e-6 ? "repeated-singular-values" : gap < 1e-2 ? "close-singular-values" : "separated-singular-values";
+}
+
+/* ------------------------------------------------------------------ group: QRDecomposition */
+/* textbook Householder QR in long double (alpha = -sign(x_k)|x|, sign(0) = -): only used to label the case by the smallest
+   |diagonal entry| of the orthogonal factor */
+static ld qr_min_qdiag(const ldm *A0)
+{
+  size_t m = A0->r, n = A0->c, i, j, k;
+  ldm *A = ldm_copy(A0), *Q = ldm_new(m, m);
+  ld v[16], best = 1;
+  for (i = 0; i < m; i++) LM(Q, i, i) = 1;
+  for (k = 0; k < n && k + 1 < m; k++) {
+    ld nx = 0, alpha, vn = 0;
+    for (i = k; i < m; i++) nx += LM(A, i, k) * LM(A, i, k);
+    nx = sqrtl(nx);
+    if (!(nx > 0)) continue;
+    alpha = LM(A, k, k) > 0 ? -nx : nx;
+    for (i = 0; i < m; i++) v[i] = i < k ? 0 : LM(A, i, k);
+    v[k] -= alpha;
+    for (i = k; i < m; i++) vn += v[i] * v[i];
+    for (j = 0; j < n; j++) { ld d = 0; for (i = k; i < m; i++) d += v[i] * LM(A, i, j); d = 2 * d / vn; for (i = k; i < m; i++) LM(A, i, j) -= d * v[i]; }
+    for (j = 0; j < m; j++) { ld d = 0; for (i = k; i < m; i++) d += LM(Q, j, i) * v[i]; d = 2 * d / vn; for (i = k; i < m; i++) LM(Q, j, i) -= d * v[i]; }
+  }
+  for (i = 0; i < m; i++) if (fabsl(LM(Q, i, i)) < best) best = fabsl(LM(Q, i, i));
+  ldm_free(A); ldm_free(Q);
+  return best;
+}
+
+static void group_qr(vh_ctx *c)
+{
+  size_t n = (size_t)vh_int(c, 1, 12), m = vh_coin(c, 0.5) ? n : (size_t)vh_int(c, (long)n, 12), i, j, t;
+  char tag[32];
+  int fam = -1;
+  ldm *A, *Q = NULL, *R = NULL, *QR = NULL;
+  ld *sv = calloc(n + 1, sizeof(ld)), kappa, fro, qd;
+  matrix *mx, *before, *q, *r;
+  call_t call;
+  const char *ic;
+  char key[128];
+  double rec = 0, low = 0, orth = 0, tol;
+  int qhow;
+  if (m == n) { fam = (int)vh_int(c, 0, NFAM - 1); A = gen_square(c, n, fam, 1e6, tag, sizeof tag); }
+  else A = gen_tall(c, m, n, 0.5, 4.0, 1e6, tag, sizeof tag);
+  mx = matrix_of_ldm(A); before = matrix_dup(mx);
+  or_svd(A, sv, NULL, NULL);
+  kappa = sv[n - 1] > 0 ? sv[0] / sv[n - 1] : INFINITY;
+  fro = ldm_frob(A);
+  qd = qr_min_qdiag(A);
+  /* input class of the keys: the routine overwrites diagonal entries of Q that are within 1e-6 of zero */
+  ic = m == 1 ? "single-row" : qd < 1e-5L ? (m == n ? "square-orthogonal-factor-with-zero-diagonal-entry" : "tall-orthogonal-factor-with-zero-diagonal-entry") : (m == n ? "square" : "tall");
+  vh_class(c, "qr-%s-%s-m%s-n%s-%s-qd%d", tag, m == n ? "square" : "tall", nbucket(m), nbucket(n), kbucket(kappa), qd < 1e-5L);
+  vh_desc(c, "group=qr family=%s rows=%zu cols=%zu kappa=%.4Lg min|Q_ii|(oracle)=%.3Lg a00=%.17g", tag, m, n, kappa, qd, mx->data[0][0]);
+  dump(c, "A", mx);
+  if (!(kappa <= 1e6L)) { vh_skip(c, "kappa > 1e6"); DelMatrix(&mx); DelMatrix(&before); ldm_free(A); free(sv); return; }
+  /* Q: empty / right shape with stale content / (sanitizer build only, where a freed container can be recognised) other shape */
+  qhow = (int)vh_int(c, 0, 2);
+  if (qhow == 2 && !HAVE_ASAN) qhow = 0;
+  if (qhow == 0) initMatrix(&q); else { NewMatrix(&q, qhow == 1 ? m : m + 1, qhow == 1 ? m : m + 2); for (i = 0; i < q->row; i++) for (j = 0; j < q->col; j++) q->data[i][j] = 7.25 + (double)i - (double)j; }
+  r = out_matrix(c, m, n);
+  vh_obs("qr_judged", 1); vh_obs(m == n ? "qr_square" : "qr_tall", 1); if (qd < 1e-5L) vh_obs("qr_cases_with_zero_diagonal_entry_in_Q", 1);
+  if (fam >= 0) vh_hist("qr_square_family", fam);
+  vh_hist("qr_rows", (long)m); vh_hist("qr_Q_container_state", qhow);
+  call.which = 0; call.a = mx; call.o1 = q; call.o2 = r; call.o3 = NULL;
+  if (call_guarded(&call)) { fail_dies(c, "QRDecomposition", ic, 0, m, n); goto out; }
+#if HAVE_ASAN
+  if (__asan_address_is_poisoned(q)) {
+    vh_fail(c, "QRDecomposition|frees-caller-Q|Q-preallocated-with-another-shape", "the matrix object passed as Q (%s) was freed by the call: the caller is left with a dangling pointer (%zux%zu input)",
+            qhow == 2 ? "allocated with another shape" : qhow == 1 ? "allocated with the result shape" : "empty", m, n);
+    q = NULL; goto out;
+  }
+#endif
+  if (!matrix_bitequal(mx, before)) vh_fail(c, "QRDecomposition|input-modified", "input matrix changed");
+  if (q->row != m || q->col != m || r->row != m || r->col != n) {
+    snprintf(key, sizeof key, "QRDecomposition|shape|%s", ic);
+    vh_fail(c, key, "Q %zux%zu R %zux%zu for a %zux%zu input (Q rows x rows, R rows x cols expected)", q->row, q->col, r->row, r->col, m, n); goto out;
+  }
+  if (!matrix_all_finite(q) || !matrix_all_finite(r)) { snprintf(key, sizeof key, "QRDecomposition|non-finite|%s", ic); vh_fail(c, key, "non-finite entries in Q or R (kappa=%.3Lg)", kappa); goto out; }
+  Q = ldm_of_matrix(q); R = ldm_of_matrix(r); QR = ldm_mul(Q, R);
+  rec = (double)ldm_maxdiff(QR, A);
+  for (i = 0; i < m; i++) for (j = 0; j < n && j < i; j++) if (!((double)fabsl(LM(R, i, j)) <= low)) low = (double)fabsl(LM(R, i, j));
+  for (i = 0; i < m; i++) for (j = 0; j < m; j++) {
+    ld a = 0; double d;
+    for (t = 0; t < m; t++) a += LM(Q, t, i) * LM(Q, t, j);
+    d = (double)fabsl(a - (i == j)); if (!(d <= orth)) orth = d;
+  }
+  tol = (double)m * EPS * (double)(fro > 0 ? fro : 1);
+  vh_max("max_qr_QR-A_units", rec / tol); vh_max("max_qr_R_below_diagonal_units", low / tol); vh_max("max_qr_QtQ-I_units", orth / ((double)m * EPS));
+  if (!(rec <= C_QR * tol)) { snprintf(key, sizeof key, "QRDecomposition|Q*R=input|%s", ic); vh_fail(c, key, "max|Q R - A| = %.3g > %.3g (%zux%zu |A|_F=%.3Lg kappa=%.3Lg min|Q_ii|=%.3Lg)", rec, C_QR * tol, m, n, fro, kappa, qd); }
+  if (!(low <= C_QR * tol)) { snprintf(key, sizeof key, "QRDecomposition|R-upper-triangular|%s", ic); vh_fail(c, key, "largest |R_ij| below the diagonal = %.3g > %.3g (%zux%zu |A|_F=%.3Lg)", low, C_QR * tol, m, n, fro); }
+  if (!(orth <= C_QR * (double)m * EPS)) { snprintf(key, sizeof key, "QRDecomposition|Q-orthogonal|%s", ic); vh_fail(c, key, "max|Q^T Q - I| = %.3g > %.3g (%zux%zu min|Q_ii|=%.3Lg)", orth, C_QR * (double)m * EPS, m, n, qd); }
+out:
+  if (q) DelMatrix(&q);
+  DelMatrix(&r); DelMatrix(&mx); DelMatrix(&before);
+  ldm_free(A); ldm_free(Q); ldm_free(R); ldm_free(QR); free(sv);
+}
+
+/* ------------------------------------------------------------------ inputs of the eigen-based SVD and of MatrixPseudoinversion */
+/* m x n; every non-zero singular value >= SVDE_SMIN, smax/smin(non-zero) <= SVDE_KMAX (checked by the caller on the oracle
+   spectrum); rank deficient members only when allow_rankdef */
+static ldm *gen_svde(vh_ctx *c, size_t m, size_t n, int allow_rankdef, char *tag, size_t tagsz)
+{
+  size_t k = m < n ? m : n, i, j, t;
+  int v = (int)vh_int(c, 0, 8);
+  ld sv[16];
+  ldm *A = NULL;
+  if (!allow_rankdef && (v == 2 || v == 5)) v = v == 2 ? 0 : 6;
+  if (v <= 2) {                                    /* prescribed singular values */
+    double smax = vh_logunif(c, log10(0.5), log10(50.0)), kmax = smax / SVDE_SMIN < SVDE_KMAX ? smax / SVDE_SMIN : SVDE_KMAX;
+    int mode = v == 1 ? (int)vh_int(c, 1, 3) : 0;
+    gen_svals(c, k, smax, vh_logunif(c, 0, log10(kmax)), mode, sv);
+    if (v == 2) { size_t z = (size_t)vh_int(c, 1, (long)k); for (t = k - z; t < k; t++) sv[t] = 0; }
+    A = from_svals(c, m, n, sv);
+    snprintf(tag, tagsz, v == 0 ? "svals" : v == 1 ? "clustered%d" : "rankdef", mode);
+  } else if (v == 3) {
+    double sc = vh_logunif(c, -0.3, 0.7);
+    A = ldm_new(m, n); for (i = 0; i < m * n; i++) A->a[i] = sc * vh_gauss(c);
+    snprintf(tag, tagsz, "gauss");
+  } else if (v == 4) {                             /* (partial) permutation, signed / scaled: one entry per row and column */
+    size_t *p = calloc((m > n ? m : n) + 1, sizeof *p);
+    int how = (int)vh_int(c, 0, 2);
+    A = ldm_new(m, n); vh_perm(c, p, m > n ? m : n);
+    for (t = 0; t < k; t++) {
+      ld val = how == 0 ? 1 : (vh_coin(c, 0.5) ? 1 : -1) * (how == 1 ? 1.0 : vh_range(c, 0.5, 2.0));
+      if (allow_rankdef && vh_coin(c, 0.08)) continue;
+      if (m >= n) LM(A, p[t], t) = val; else LM(A, t, p[t]) = val;
+    }
+    free(p); snprintf(tag, tagsz, "perm%d", how);
+  } else if (v == 5) {                             /* rank one / (almost) zero matrix */
+    A = ldm_new(m, n);
+    if (vh_coin(c, 0.6)) {
+      ld a[16], b[16];
+      for (i = 0; i < m; i++) a[i] = vh_gauss(c);
+      for (j = 0; j < n; j++) b[j] = vh_gauss(c);
+      for (i = 0; i < m; i++) for (j = 0; j < n; j++) LM(A, i, j) = a[i] * b[j];
+      snprintf(tag, tagsz, "rank1");
+    } else {
+      if (vh_coin(c, 0.5)) LM(A, (size_t)vh_int(c, 0, (long)m - 1), (size_t)vh_int(c, 0, (long)n - 1)) = vh_range(c, 0.5, 2.0) * (vh_coin(c, 0.5) ? 1 : -1);
+      snprintf(tag, tagsz, "zero");
+    }
+  } else if (v == 6 || v == 7) {                   /* structured families of the quantifier: the matrix itself (square) or a block of it */
+    char t2[24];
+    int fam = (int)vh_int(c, v == 6 ? F_PERM : F_SVALS, NFAM - 1);
+    ldm *B = gen_square(c, k, fam, SVDE_KMAX, t2, sizeof t2);
+    double s = vh_range(c, 0.2, 0.8);
+    A = ldm_new(m, n);
+    for (i = 0; i < m; i++) for (j = 0; j < n; j++) LM(A, i, j) = (i < k && j < k) ? LM(B, i, j) : s * vh_gauss(c);
+    ldm_free(B);
+    snprintf(tag, tagsz, "%s-%s", m == n ? "sq" : "blk", t2);
+  } else {                                         /* upper triangular / trapezoidal */
+    A = ldm_new(m, n);
+    for (i = 0; i < m; i++) for (j = i; j < n; j++) LM(A, i, j) = i == j ? (vh_coin(c, 0.5) ? 1 : -1) * vh_range(c, 0.5, 2.0) : 0.4 * vh_gauss(c);
+    snprintf(tag, tagsz, m == n ? "triU" : "trapezoid");
+  }
+  round_to_double(A);
+  return A;
+}
+
+/* oracle spectrum and domain test; returns 0 when a non-zero singular value lies below SVDE_SMIN or kappa(non-zero part) > SVDE_KMAX */
+static int svde_domain(const ldm *A, ld *svo, size_t *rank, ld *kappa)
+{
+  size_t k = A->r < A->c ? A->r : A->c, t;
+  ld smin = 0;
+  or_svd(A, svo, NULL, NULL);
+  *rank = 0;
+  for (t = 0; t < k; t++) if (svo[t] > 1e-10L * svo[0] && svo[t] > 0) { (*rank)++; smin = svo[t]; }
+  *kappa = *rank ? svo[0] / smin : 1;
+  if (*rank && (smin < SVDE_SMIN || *kappa > SVDE_KMAX)) return 0;
+  return 1;
+}
+
+/* ------------------------------------------------------------------ group: SVD (eigen-decomposition based) */
+static void group_svde(vh_ctx *c)
+{
+  size_t m = (size_t)vh_int(c, 1, 12), n = (size_t)vh_int(c, 1, 12), k, i, j, t, rank, p, q, nd;
+  char tag[32], key[160], ic[96];
+  ldm *A, *U = NULL, *S = NULL, *VT = NULL, *US = NULL, *R = NULL;
+  ld *svo, kappa, smax, d[16];
+  matrix *mx, *before, *u, *s, *vt;
+  call_t call;
+  const char *sh, *gt;
+  double rec, dsv = 0, ou = 0, ov = 0, offd = 0, amp, tolv, tolr, tolo, gap;
+  int st, sq = vh_coin(c, 0.3);
+  if (sq) n = m;
+  else if (m < n && vh_coin(c, 0.4)) { size_t w = m; m = n; n = w; }
+  k = m < n ? m : n;
+  sh = m == n ? "square" : m > n ? "tall" : "wide";
+  svo = calloc(k + 1, sizeof(ld));
+  A = gen_svde(c, m, n, 1, tag, sizeof tag);
+  mx = matrix_of_ldm(A); before = matrix_dup(mx);
+  if (!svde_domain(A, svo, &rank, &kappa)) {
+    vh_class(c, "svde-%s-%s-skip", tag, sh);
+    vh_skip(c, "a non-zero singular value below 0.05 or kappa > 1e3 (SVD zeroes eigenvalues of the normal matrix below 1e-6)");
+    DelMatrix(&mx); DelMatrix(&before); ldm_free(A); free(svo); return;
+  }
+  smax = svo[0];
+  gt = gap_tag(svo, rank, &gap);
+  snprintf(ic, sizeof ic, "%s-%s%s", sh, rank == k ? "" : "rank-deficient-", gt);
+  vh_class(c, "svde-%s-%s-m%s-n%s-%s-%s-%s", tag, sh, nbucket(m), nbucket(n), rank == k ? "fullrank" : rank == 0 ? "zero" : "deficient", kbucket(kappa), gap < 1e-6 ? "rep" : gap < 1e-2 ? "close" : "sep");
+  vh_desc(c, "group=svde family=%s rows=%zu cols=%zu rank=%zu smax=%.6Lg smin(nonzero)=%.6Lg kappa=%.4Lg min_rel_gap=%.3g a00=%.17g", tag, m, n, rank, smax, rank ? svo[rank - 1] : 0, kappa, gap, mx->data[0][0]);
+  dump(c, "A", mx);
+  u = out_matrix(c, m, k); s = out_matrix(c, k, k); vt = out_matrix(c, k, n);
+  vh_obs("svde_judged", 1); vh_obs(m == n ? "svde_square" : m > n ? "svde_tall" : "svde_wide", 1); if (rank < k) vh_obs("svde_rank_deficient", 1);
+  call.which = 1; call.a = mx; call.o1 = u; call.o2 = s; call.o3 = vt;
+  if (m < n && (st = call_dies_in_copy(&call)) != 0) { fail_dies(c, "SVD", sh, st, m, n); goto out; }
+  if (call_guarded(&call)) { fail_dies(c, "SVD", sh, 0, m, n); goto out; }
+  if (!matrix_bitequal(mx, before)) vh_fail(c, "SVD|input-modified", "input matrix changed");
+  p = u->col; q = vt->row;
+  if (u->row != m || vt->col != n || s->row != p || s->col != q) {
+    snprintf(key, sizeof key, "SVD|factors-not-conformable|%s", sh);
+    vh_fail(c, key, "u %zux%zu s %zux%zu vt %zux%zu for a %zux%zu input: u*s*vt is not defined or not %zux%zu", u->row, u->col, s->row, s->col, vt->row, vt->col, m, n, m, n);
+    goto out;
+  }
+  if (!matrix_all_finite(u) || !matrix_all_finite(s) || !matrix_all_finite(vt)) { snprintf(key, sizeof key, "SVD|non-finite|%s", ic); vh_fail(c, key, "non-finite factor entries (kappa=%.3Lg)", kappa); goto out; }
+  nd = p < q ? p : q;
+  if (nd < k) { snprintf(key, sizeof key, "SVD|singular-value-count|%s", sh); vh_fail(c, key, "%zu diagonal entries in s for a %zux%zu input", nd, m, n); goto out; }
+  for (i = 0; i < p; i++) for (j = 0; j < q; j++) if (i != j && !(fabs(s->data[i][j]) <= offd)) offd = fabs(s->data[i][j]);
+  if (offd != 0) vh_fail(c, "SVD|S-not-diagonal", "largest off-diagonal entry of s = %.3g", offd);
+  for (t = 0; t < nd && t < 16; t++) {
+    d[t] = s->data[t][t];
+    if (d[t] < 0) { snprintf(key, sizeof key, "SVD|negative-singular-value|%s", ic); vh_fail(c, key, "s[%zu] = %.17g", t, s->data[t][t]); }
+  }
+  for (i = 0; i + 1 < nd; i++) for (j = i + 1; j < nd; j++) if (d[j] > d[i]) { ld w = d[i]; d[i] = d[j]; d[j] = w; }
+  for (t = 0; t < nd; t++) { double e = (double)fabsl(d[t] - (t < k ? svo[t] : 0)); if (!(e <= dsv)) dsv = e; }
+  U = ldm_of_matrix(u); S = ldm_of_matrix(s); VT = ldm_of_matrix(vt);
+  US = ldm_mul(U, S); R = ldm_mul(US, VT);
+  rec = (double)ldm_maxdiff(R, A);
+  amp = (double)(kappa * kappa);
+  tolv = (double)(m > n ? m : n) * EPS * (double)(smax > 0 ? smax : 1) * amp;            /* singular values: no gap factor (eigenvalues are well conditioned) */
+  tolr = tolv * gap_amp(gap);
+  tolo = (double)(m > n ? m : n) * EPS * amp * gap_amp(gap);
+  vh_max("max_svde_reconstruction_units", rec / tolr); vh_max("max_svde_values_vs_oracle_units", dsv / tolv);
+  if (!(rec <= C_SVDE * tolr)) { snprintf(key, sizeof key, "SVD|U*S*Vt=input|%s", ic); vh_fail(c, key, "max|U S V^T - A| = %.3g > %.3g (%zux%zu smax=%.3Lg kappa=%.3Lg min_rel_gap=%.3g)", rec, C_SVDE * tolr, m, n, smax, kappa, gap); }
+  if (!(dsv <= C_SVDE * tolv)) { snprintf(key, sizeof key, "SVD|singular-values-vs-oracle|%s", ic); vh_fail(c, key, "sorted diagonal of s differs from the singular values by %.3g > %.3g (%zux%zu smax=%.3Lg kappa=%.3Lg; s[0]=%.6g oracle %.6Lg)", dsv, C_SVDE * tolv, m, n, smax, kappa, (double)d[0], svo[0]); }
+  if (rank == k) {                                 /* "U and V are orthogonal" (comment of MatrixPseudoinversion, docs example): judged when no singular value vanishes */
+    for (i = 0; i < p; i++) for (j = 0; j < p; j++) { ld a = 0; double e; for (t = 0; t < m; t++) a += LM(U, t, i) * LM(U, t, j); e = (double)fabsl(a - (i == j)); if (!(e <= ou)) ou = e; }
+    for (i = 0; i < q; i++) for (j = 0; j < q; j++) { ld a = 0; double e; for (t = 0; t < n; t++) a += LM(VT, i, t) * LM(VT, j, t); e = (double)fabsl(a - (i == j)); if (!(e <= ov)) ov = e; }
+    vh_max("max_svde_UtU-I_units", ou / tolo); vh_max("max_svde_VVt-I_units", ov / tolo);
+    if (!(ou <= C_SVDE * tolo)) { snprintf(key, sizeof key, "SVD|U-orthonormal|%s", ic); vh_fail(c, key, "max|U^T U - I| = %.3g > %.3g (%zux%zu, u is %zux%zu, kappa=%.3Lg min_rel_gap=%.3g)", ou, C_SVDE * tolo, m, n, u->row, u->col, kappa, gap); }
+    if (!(ov <= C_SVDE * tolo)) { snprintf(key, sizeof key, "SVD|Vt-orthonormal|%s", ic); vh_fail(c, key, "max|V^T V - I| = %.3g > %.3g (%zux%zu, vt is %zux%zu, kappa=%.3Lg min_rel_gap=%.3g)", ov, C_SVDE * tolo, m, n, vt->row, vt->col, kappa, gap); }
+    vh_obs("svde_orthonormality_judged", 1);
+  }
+  ldm_free(U); ldm_free(S); ldm_free(VT); ldm_free(US); ldm_free(R);
+out:
+  DelMatrix(&u); DelMatrix(&s); DelMatrix(&vt); DelMatrix(&mx); DelMatrix(&before); ldm_free(A); free(svo);
+}
+
+/* ------------------------------------------------------------------ group: MatrixPseudoinversion (SVD based) */
+static void group_psvd(vh_ctx *c)
+{
+  size_t n = (size_t)vh_int(c, 1, 12), m = vh_coin(c, 0.45) ? n : (size_t)vh_int(c, (long)n, 12), i, j, rank;
+  char tag[32], key[160], ic[96];
+  ldm *A = gen_svde(c, m, n, 0, tag, sizeof tag), *I, *Go = NULL, *G = NULL, *AG = NULL, *GA = NULL, *AGA = NULL, *GAG = NULL;
+  ld *sv = calloc(n + 1, sizeof(ld)), kappa, gmax, amax;
+  matrix *mx = matrix_of_ldm(A), *before = matrix_dup(mx), *inv = NULL;
+  call_t call;
+  const char *gt, *sh = m == n ? "square" : "tall";
+  double tol, p1, p2, p3 = 0, p4 = 0, fwd, gap, r = 0, l = 0;
+  if (!svde_domain(A, sv, &rank, &kappa) || rank < n) {
+    vh_class(c, "psvd-%s-%s-skip", tag, sh);
+    vh_skip(c, rank < n ? "not of full column rank" : "a singular value below 0.05 or kappa > 1e3 (the SVD behind the routine zeroes eigenvalues of the normal matrix below 1e-6)");
+    goto out;
+  }
+  gt = gap_tag(sv, n, &gap);
+  snprintf(ic, sizeof ic, "%s-%s", sh, gt);
+  vh_class(c, "psvd-%s-n%s-%s-k%s-%s", tag, nbucket(n), sh, kappa < 2 ? "<2" : kappa < 10 ? "<1e1" : kappa < 100 ? "<1e2" : "<1e3", gap < 1e-6 ? "rep" : gap < 1e-2 ? "close" : "sep");
+  vh_desc(c, "group=psvd family=%s rows=%zu cols=%zu smin=%.4Lg smax=%.4Lg kappa=%.4Lg min_rel_gap=%.3g a00=%.17g", tag, m, n, sv[n - 1], sv[0], kappa, gap, mx->data[0][0]);
+  dump(c, "A", mx);
+  I = ldm_new(m, m); for (i = 0; i < m; i++) LM(I, i, i) = 1;
+  Go = or_lstsq(A, I); ldm_free(I);
+  if (!Go) { vh_skip(c, "oracle: rank deficient"); goto out; }
+  inv = out_matrix(c, n, m);
+  vh_obs("psvd_judged", 1); vh_obs(m == n ? "psvd_square" : "psvd_tall", 1);
+  call.which = 2; call.a = mx; call.o1 = inv; call.o2 = call.o3 = NULL;
+  if (call_guarded(&call)) { fail_dies(c, "MatrixPseudoinversion", sh, 0, m, n); goto out; }
+  if (!matrix_bitequal(mx, before)) vh_fail(c, "MatrixPseudoinversion|input-modified", "input matrix changed");
+  if (inv->row != n || inv->col != m) { snprintf(key, sizeof key, "MatrixPseudoinversion|shape|%s", sh); vh_fail(c, key, "pseudo-inverse is %zux%zu for a %zux%zu input", inv->row, inv->col, m, n); goto out; }
+  if (!matrix_all_finite(inv)) { snprintf(key, sizeof key, "MatrixPseudoinversion|non-finite|%s", ic); vh_fail(c, key, "non-finite entries (smin=%.3Lg kappa=%.3Lg)", sv[n - 1], kappa); goto out; }
+  G = ldm_of_matrix(inv);
+  AG = ldm_mul(A, G); GA = ldm_mul(G, A); AGA = ldm_mul(AG, A); GAG = ldm_mul(GA, G);
+  amax = ldm_maxabs(A); gmax = ldm_maxabs(Go);
+  p1 = (double)(ldm_maxdiff(AGA, A) / amax);
+  p2 = (double)(ldm_maxdiff(GAG, G) / gmax);
+  for (i = 0; i < m; i++) for (j = 0; j < m; j++) { double d = (double)fabsl(LM(AG, i, j) - LM(AG, j, i)); if (!(d <= p3)) p3 = d; }
+  for (i = 0; i < n; i++) for (j = 0; j < n; j++) { double d = (double)fabsl(LM(GA, i, j) - LM(GA, j, i)); if (!(d <= p4)) p4 = d; }
+  fwd = (double)(ldm_maxdiff(G, Go) / gmax);
+  tol = (double)(kappa * kappa) * (double)n * EPS * gap_amp(gap);
+  { char nm[80]; double worst = fmax(fmax(p1, p2), fmax(fmax(p3, p4), fwd)); snprintf(nm, sizeof nm, "max_psvd_units_%s", gt); vh_max(nm, worst / tol); }
+#define PSVD_FAIL(cond, clause, ...) if (!(cond)) { snprintf(key, sizeof key, "MatrixPseudoinversion|%s|%s", clause, ic); vh_fail(c, key, __VA_ARGS__); }
+  if (m == n) {                                    /* an inverse routine on a non-singular square matrix */
+    for (i = 0; i < n; i++) for (j = 0; j < n; j++) {
+      double d = (double)fabsl(LM(AG, i, j) - (i == j)); if (!(d <= r)) r = d;
+      d = (double)fabsl(LM(GA, i, j) - (i == j)); if (!(d <= l)) l = d;
+    }
+    vh_max("max_psvd_MX-I_units", r / tol); vh_max("max_psvd_XM-I_units", l / tol);
+    PSVD_FAIL(r <= C_PSVD * tol, "inverse-residual", "max|M*inv - I| = %.3g > %.3g (n=%zu kappa=%.3Lg min_rel_gap=%.3g)", r, C_PSVD * tol, n, kappa, gap)
+    PSVD_FAIL(l <= C_PSVD * tol, "left-inverse-residual", "max|inv*M - I| = %.3g > %.3g (n=%zu kappa=%.3Lg min_rel_gap=%.3g)", l, C_PSVD * tol, n, kappa, gap)
+  }
+  PSVD_FAIL(p1 <= C_PSVD * tol, "penrose-1-AGA=A", "max|AGA - A|/max|A| = %.3g > %.3g (%zux%zu kappa=%.3Lg min_rel_gap=%.3g)", p1, C_PSVD * tol, m, n, kappa, gap)
+  PSVD_FAIL(p2 <= C_PSVD * tol, "penrose-2-GAG=G", "max|GAG - G|/max|G*| = %.3g > %.3g (%zux%zu kappa=%.3Lg min_rel_gap=%.3g)", p2, C_PSVD * tol, m, n, kappa, gap)
+  PSVD_FAIL(p3 <= C_PSVD * tol, "penrose-3-AG-symmetric", "max|AG - (AG)^T| = %.3g > %.3g (%zux%zu kappa=%.3Lg)", p3, C_PSVD * tol, m, n, kappa)
+  PSVD_FAIL(p4 <= C_PSVD * tol, "penrose-4-GA-symmetric", "max|GA - (GA)^T| = %.3g > %.3g (%zux%zu kappa=%.3Lg)", p4, C_PSVD * tol, m, n, kappa)
+  PSVD_FAIL(fwd <= C_PSVD * tol, "vs-oracle", "max|G - oracle|/max|oracle| = %.3g > %.3g (%zux%zu kappa=%.3Lg min_rel_gap=%.3g)", fwd, C_PSVD * tol, m, n, kappa, gap)
+out:
+  if (inv) DelMatrix(&inv);
+  DelMatrix(&mx); DelMatrix(&before); ldm_free(A); ldm_free(Go); ldm_free(G); ldm_free(AG); ldm_free(GA); ldm_free(AGA); ldm_free(GAG); free(sv);
+}
+
 static void run_case(vh_ctx *c)
 {
   long w = vh_int(c, 0, 99), acc = 0;
@@ -771,7 +1209,10 @@ static void run_case(vh_ctx *c)
   case G_OLS: group_ols(c); break;
   case G_PINV: group_pinv(c); break;
   case G_EIG: group_eig(c); break;
-  default: group_svd(c); break;
+  case G_SVD: group_svd(c); break;
+  case G_QR: group_qr(c); break;
+  case G_SVDE: group_svde(c); break;
+  default: group_psvd(c); break;
   }
   (void)GNAME; (void)FNAME;
 }
